@@ -317,7 +317,13 @@ def unwrap_or_cases(sy, n):
         pa = sy.poly(("field", ("downcast", unmut(A), "Some"), 0))
         pb = sy.poly(("field", ("downcast", unmut(B), "Some"), 0))
         if pa is not None and pb is not None:
-            an_, bn_ = sy.name(A), sy.name(B)
+            def _recv(x_):
+                # `opt.map(f)` has the variant of `opt`
+                x_ = unmut(x_)
+                while x_[0] == "call" and _short(x_[1]) == "Option::<T>::map" and len(x_[2]) == 2:
+                    x_ = unmut(x_[2][0])
+                return x_
+            an_, bn_ = sy.name(_recv(A)), sy.name(_recv(B))
             return [(key0, pa, [("some", an_)]), (key0, pb, [("none", an_), ("some", bn_)]), (key0, pd, [("none", an_), ("none", bn_)])]
     # X = Y.map(f): Some exactly when Y is Some, payload f(payload of Y)
     from .guards import closure_info, closure_ret, subst_upvars
